@@ -15,7 +15,7 @@ import (
 
 // Shared runner of C13's families. One case = one program in two sizes: a small one (a table of a few records, the
 // split threshold lowered) that is executed under EVERY goroutine schedule with at most one non-default scheduling
-// decision (thorough: two, where the all-default execution has at most 150 choice points), and a large one (some
+// decision (thorough: two, where the all-default execution has at most 50 choice points), and a large one (some
 // hundred records) that runs free on 4 real threads a few times. The oracle is the race detector's log after each
 // execution, reduced by raceSignature exactly like the scenarios of c13.go (the same race has the same signature
 // whichever family meets it).
@@ -132,8 +132,10 @@ func c13FamilyRun(c *core.Ctx, family string, cases []c13FamilyCase, before func
 			c.Add("family_cases_explored_under_the_scheduler["+family+"]", 1)
 		}
 		if sched.SQL != "" && c.Thorough() {
-			if _, probe := goxRunOnce(dir, sched, sched.CPU, true, nil); len(probe.Points) <= 150 {
-				w.newReports()
+			// the number of executions grows with the square of the choice points of the all-default execution
+			_, probe := goxRunOnce(dir, sched, sched.CPU, true, nil)
+			report(k.Sched, nil, false)
+			if len(probe.Points) <= 50 {
 				pass(2, " (2 decisions)")
 			}
 		}
@@ -149,7 +151,10 @@ func c13FamilyRun(c *core.Ctx, family string, cases []c13FamilyCase, before func
 			}
 		}
 		for r := 0; r < runs; r++ {
-			goxRunOnce(dir, free, 4, false, nil)
+			out, _ := goxRunOnce(dir, free, 4, false, nil)
+			if bad := c13FamilyFailure(out); bad != "" && r == 0 && !strings.Contains(k.Name, "error") {
+				c.Incomplete(fmt.Sprintf("family %s, case %s: the program of the free runs fails: %s", family, k.Name, clip(bad)))
+			}
 			report(k.Free, nil, true)
 		}
 		c.EvalN(int64(runs), int64(runs))
@@ -157,7 +162,7 @@ func c13FamilyRun(c *core.Ctx, family string, cases []c13FamilyCase, before func
 		c.Add("family_cases["+family+"]", 1)
 		c.Observe("family_"+family+"_cases", k.Name)
 		if c.WantSample() {
-			c.Sample(map[string]any{"family": family, "case": k.Name, "sql": k.Sched.SQL, "workers": k.Sched.CPU, "free_running_runs": runs})
+			c.Sample(map[string]any{"family": family, "case": k.Name, "sql": k.Free.SQL, "explored_under_the_scheduler": k.Sched.SQL != "", "free_running_runs": runs})
 		}
 		done()
 	}
